@@ -298,6 +298,20 @@ func Run(r *rep.Run) {
 
 		check(base, tcase{l.Code, tname, "(base)", ""})
 		r.Sample(tcase{l.Code, tname, "(base)", fmt.Sprintf("% x", baseRef)})
+		// unset fields: the Go zero value of the message, and the base message with one byte-slice field nil (an empty
+		// non-nil slice is part of the string catalogue below; both must produce the same bytes)
+		check(reflect.Zero(reflect.TypeOf(l.Proto)).Interface(), tcase{l.Code, tname, "(zero)", ""})
+		for _, f := range l.Fields {
+			if f.Kind != wire.S16 && f.Kind != wire.S32 {
+				continue
+			}
+			c := reflect.New(reflect.TypeOf(l.Proto)).Elem()
+			c.Set(reflect.ValueOf(base))
+			if fv := c.FieldByName(f.Name); fv.Kind() == reflect.Slice {
+				fv.Set(reflect.Zero(fv.Type()))
+				check(c.Interface(), tcase{l.Code, tname, f.Name, "nil"})
+			}
+		}
 		for _, f := range fields {
 			for _, val := range f.vals {
 				m := wire.Set(base, f.name, val)
